@@ -497,3 +497,52 @@ def lower_range_for_map(sl, key_type="auto", val_type="auto", required=False):
     if required and count == 0:
         raise ExtractionBroken(f"slice {sl.name}: rule L7m fired 0 times")
     return sl
+
+
+def lower_local_lambdas(sl):
+    """Rule L25: a local, non-returning lambda `[const] auto NAME = [captures](T p) { BODY };` whose uses are call
+    statements `NAME(arg);` is expanded at each call: `{ T p = arg; BODY }` (captures by reference are the enclosing
+    variables themselves).  CBMC's front end has no lambdas."""
+    count = 0
+    while True:
+        ts = Source("<slice:%s>" % sl.name, text=sl.text)
+        m = None
+        for mm in re.finditer(r"(?:const\s+)?auto\s+(\w+)\s*=\s*\[[^\]]*\]\s*\(([^)]*)\)\s*(?:mutable\s*)?\{", ts.text):
+            if ts.mask[mm.start()] == "c":
+                m = mm
+                break
+        if not m:
+            break
+        b = m.end() - 1
+        be = ts.match_brace(b)
+        j = be
+        while ts.text[j] in " \t\n":
+            j += 1
+        if ts.text[j] != ";":
+            raise ExtractionBroken(f"slice {sl.name}: lambda {m.group(1)} is not a plain local definition")
+        name, params, body = m.group(1), [p.strip() for p in m.group(2).split(",") if p.strip()], ts.text[b + 1:be - 1]
+        if re.search(r"\breturn\b", body):
+            raise ExtractionBroken(f"slice {sl.name}: lambda {name} returns a value (rule L25 covers statement lambdas only)")
+        rest = ts.text[:m.start()] + ts.text[j + 1:]
+        def expand(cm):
+            args = [a.strip() for a in cm.group(1).split(",")] if cm.group(1).strip() else []
+            if len(args) != len(params):
+                raise ExtractionBroken(f"slice {sl.name}: call of lambda {name} with {len(args)} arguments")
+            binds = " ".join("%s = %s;" % (p, a) for p, a in zip(params, args))
+            return "{ " + binds + " " + body + " }"
+        new, n = re.subn(r"\b%s\(([^;]*)\);" % re.escape(name), expand, rest)
+        if n == 0 or re.search(r"\b%s\b" % re.escape(name), new):
+            raise ExtractionBroken(f"slice {sl.name}: lambda {name} is used other than in call statements")
+        sl.text = new
+        count += 1
+    sl.rules["L25:local statement lambda->expanded at its calls"] = sl.rules.get("L25:local statement lambda->expanded at its calls", 0) + count
+    return sl
+
+
+def lower_ternary_assign(sl):
+    """Rule L20 (general form): a statement `X = C ? A : B;` becomes `if (C) X = A; else X = B;` (CBMC mis-types ?: over
+    class objects)."""
+    new, n = re.subn(r"(^|[;{}]\s*)([\w\.\->\[\]]+) = ([^;?]+?) \? ([^;:]+?) : ([^;]+?);", r"\1if (\3) \2 = \4; else \2 = \5;", sl.text, flags=re.M)
+    sl.text = new
+    sl.rules["L20:x = c ? a : b -> if/else"] = sl.rules.get("L20:x = c ? a : b -> if/else", 0) + n
+    return sl
